@@ -195,6 +195,11 @@ def mk(op, img, sizes, label, **kw):
     if ex and exp is not False and not img.traits.get('reject'):
         exp = False; w = ex + w
     c = {'op': op, 'fmt': img.fmt, 'z': pack(img.data), 'sizes': list(sizes), 'exp': exp, 'why': w, 'k': label}
+    if op == 'cli':
+        # the image carries its format's signature and everything the inspector needs: whatever detection reports, an
+        # unsafe one must not be accepted (e.g. as raw after its own inspector raised)
+        rj = img.traits.get('reject', [])
+        c['own'] = bool(ib.signature_present(img.fmt, img.data) is True and img.fmt != 'raw' and 'incomplete' not in rj and 'mismatch' not in rj)
     c.update(kw)
     return c
 
@@ -212,7 +217,12 @@ def trait_cases(rng, tier, fmts=ib.FORMATS):
             # irrelevant fields / truncations of a sample
             if rng.random() < (0.08 if tier == 'quick' else 0.3) and fmt != 'vhdx':
                 for t in list(ib.truncations(img))[:: 3 if tier == 'quick' else 1]:
-                    yield mk('safety', t, some_chunkings(t, rng, 2)[-1], 'trunc')
+                    c = mk('safety', t, some_chunkings(t, rng, 2)[-1], 'trunc')
+                    if 'vmdk_footer_not_at_end' in img.traits.get('reject', []) or img.traits.get('unspecified'):
+                        # cutting off what follows the end-of-stream marker restores a well-formed image; cuts of images
+                        # the text is silent about stay unjudged
+                        c['exp'] = None
+                    yield c
     # every inspector on every other format's clean image: never accepted as that format unless it matches
     for src in ib.FORMATS:
         img = ib.random_wellformed(src, rng)
@@ -268,7 +278,97 @@ def f1_cases(rng, tier):
             yield mk('safety', img, sizes, 'text-descriptor')
         yield mk('cli', img, [], 'cli-text-descriptor', verbose=False, how='main')
 
+# ------------------------------------------------------------------ descriptors with an embedded NUL
+CLEAN_HEAD = b'# Disk DescriptorFile\nversion=1\ncreateType="monolithicSparse"\nRW 2048 SPARSE "disk.vmdk"\n'
+CLEAN_TAIL = b'createType="monolithicSparse"\nRW 2048 SPARSE "disk.vmdk"\nddb.adapterType = "ide"\n'
+def nul_images(rng, tier):
+    """the descriptor is the text up to the first NUL (the consumer reads a C string): whatever follows the NUL must not
+    repair a defective head (ground truth: the head decides); a clean head with anything behind the NUL: text is silent"""
+    heads = [(b'version=1\ncreateType="monolithicSparse"\n', 'vmdk_no_extent'),
+             (b'version=1\nRW 2048 SPARSE "disk.vmdk"\n', 'vmdk_createtype_absent'),
+             (b'createType="monolithicSparse"\nRW 2048 SPARSE "disk.vmdk"\nthis is junk', 'vmdk_unrecognised_line'),
+             (b'createType="monolithicSparse"\nRW 2048 SPARSE "disk.vmdk"\njunk', 'vmdk_unrecognised_line'),
+             (b'createType="monolithicFlat"\nRW 2048 FLAT "disk-flat.vmdk" 0\n', 'vmdk_createtype_other'),
+             (b'createType="monolithicSparse"\nRW 1 FLAT "/etc/passwd" 0\n', 'vmdk_extent_path'),
+             (b'', 'vmdk_descriptor_missing'), (b'\n\n', 'vmdk_createtype_absent'),
+             (b'createType="monolithicSparse"\n# RW 1 SPARSE "a"', 'vmdk_no_extent')]
+    tails = [CLEAN_TAIL, b'=1\n' + CLEAN_TAIL, b'\n' + CLEAN_TAIL, b'RW 1 SPARSE "x.vmdk"\n', b'\ncreateType="streamOptimized"\n',
+             b' ok=1\nRW 1 SPARSE "b.vmdk"\n', b'\x00\x00' + CLEAN_TAIL, b'# c\n\nddb.x = "1"\nkey=v\nRDONLY 1 SPARSE "c"\n' + CLEAN_TAIL]
+    subs = ('monolithicSparse', 'streamOptimized')
+    for head, why_ in heads:
+        for tail in (tails if tier != 'quick' else rng.sample(tails, 4)):
+            sub = rng.choice(subs)
+            yield ib.build('vmdk', rng, subformat=sub, descriptor=head + b'\x00' + tail, desc_reject=[why_, 'text_after_nul'],
+                           desc_num=rng.choice([1, 2, 20]), body_len=rng.choice([0, 512]))
+    for tail in [b'junk line\n', b'RW 1 FLAT "/etc/passwd" 0\n', b'createType="vmfs"\n', b'\xff\xfe']:
+        yield ib.build('vmdk', rng, subformat=rng.choice(subs), descriptor=CLEAN_HEAD + b'\x00' + tail, desc_unspecified=['vmdk_text_after_nul'],
+                       desc_num=2, body_len=0)
+
+def nul_cases(rng, tier):
+    for img in nul_images(rng, tier):
+        for ch in some_chunkings(img, rng, 2):
+            yield mk('safety', img, ch, 'nul')
+        yield mk('spec', img, [len(img.data)], 'nul-spec')
+        if rng.random() < 0.25: yield mk('cli', img, [], 'cli-nul', verbose=False, how='main')
+
+# ------------------------------------------------------------------ every header field the verdict must not depend on
+def _field_vals(f, rng):
+    if f.kind == 'raw':
+        return [bytes(f.size), b'\xff' * f.size, rng.randbytes(f.size), b'\x01' + bytes(f.size - 1)]
+    mx = (1 << (8 * f.size)) - 1
+    return [0, 1, mx, mx - 1, rng.getrandbits(8 * f.size), 1 << (8 * f.size - 1)]
+
+def sweep_bases(fmt, rng, tier):
+    """one clean image and unsafe images with distinct reasons (complete, matching)"""
+    seen = {}
+    lim = 14 if tier == 'quick' else 60
+    for img in ib.trait_images(fmt, rng, 'quick'):
+        r = img.traits.get('reject', [])
+        if 'incomplete' in r or 'mismatch' in r or img.traits.get('zones'): continue
+        key = 'clean' if img.expect_accept is True else (tuple(sorted(set(r))) if img.expect_accept is False else None)
+        if key is None or key in seen: continue
+        if fmt == 'vhdx' and (key != 'clean' or tier == 'quick'): continue
+        seen[key] = capped(img)
+    # the clean image, then single-reason images (each unsafe trait alone), then combinations
+    keys = sorted(seen, key=lambda k: (k != 'clean', len(k) if k != 'clean' else 0, str(k)))
+    return [seen[k] for k in keys[:lim]]
+
+def sweep_cases(rng, tier):
+    for fmt in ib.FORMATS:
+        for base in sweep_bases(fmt, rng, tier):
+            names = [n for n, f in base.fields.items() if f.role == 'irrelevant' and f.off + f.size <= len(base.data)]
+            for n in names:
+                vals = _field_vals(base.fields[n], rng)
+                if tier == 'quick' and base.expect_accept is not True: vals = vals[:3]
+                for v in vals:
+                    img = ib.set_field(base, n, v)
+                    k = len(img.data)
+                    yield mk('safety', img, rng.choice([[k], [4096] * (k // 4096 + 1), [rng.randrange(1, k + 1)]]), 'field:' + n)
+            # pairs of irrelevant fields at once
+            for _ in range(4 if tier == 'quick' else 30):
+                img = base
+                for n in rng.sample(names, min(len(names), rng.randint(2, 4))):
+                    img = ib.set_field(img, n, rng.choice(_field_vals(base.fields[n], rng)))
+                yield mk('safety', img, [len(img.data)], 'fields')
+                if fmt in STATIC or fmt == 'vmdk': yield mk('spec', img, [len(img.data)], 'fields-spec')
+
+# ------------------------------------------------------------------ images that make their own inspector RAISE inside eat_chunk
+def raising_images(rng, tier):
+    for kw in (dict(desc_sec=0), dict(desc_sec=2), dict(desc_sec=1 << 55), dict(version=0), dict(version=4), dict(version=ib.U32),
+               dict(desc_sec=2, subformat='streamOptimized'), dict(version=5, subformat='streamOptimized'), dict(desc_sec=3, version=3)):
+        yield ib.trait_image('vmdk', kw, rng)
+    for kw in (dict(region_sig=b'regj'), dict(region_count=2048), dict(meta_sig=b'metadatb'), dict(meta_count=2048)):
+        yield ib.trait_image('vhdx', dict(kw, fill='zero'), rng)
+
+def raising_cases(rng, tier):
+    for j, img in enumerate(raising_images(rng, tier)):
+        yield mk('cli', img, [], 'cli-raising', verbose=bool(j % 2), how='sub' if j % 4 == 0 else 'main')
+        yield mk('safety', img, [4096] * (len(img.data) // 4096 + 1) if len(img.data) < 150000 else [65536] * (len(img.data) // 65536 + 1), 'raising')
+
 def gen_cases(rng, tier):
+    yield from nul_cases(rng, tier)
+    yield from raising_cases(rng, tier)
+    yield from sweep_cases(rng, tier)
     yield from f1_cases(rng, tier)
     yield from trait_cases(rng, tier)
     yield from cli_cases(rng, tier)
@@ -353,7 +453,7 @@ def oracle(c, io):
         ok_lib = d['detect'] not in ('nopath', 'None') and not d['detect'].startswith('EXN') and d['safety'] == 'pass'
         if ex == 0 and not ok_lib:
             return 'the command-line checker exits 0 although detection/safety_check did not both succeed: %s' % io
-        if ex == 0 and c['exp'] is False and d['detect'] == c['fmt']:
+        if ex == 0 and c['exp'] is False and (d['detect'] == c['fmt'] or c.get('own')):
             return 'the command-line checker exits 0 on an image built with an unsafe / unverifiable trait (%s)' % ','.join(c['why'])
         if ex != 0 and c['exp'] is True and d['detect'] == c['fmt'] and c['fmt'] != 'qed':
             return 'the command-line checker rejects a clean %s image: %s' % (c['fmt'], io)
